@@ -11,7 +11,7 @@ import hashlib, os, shutil, subprocess, sys, sysconfig, glob, fcntl
 
 REPO = os.environ.get("VERIF_REPO", "/repo")
 VERIF = os.path.dirname(os.path.dirname(os.path.abspath(__file__)))
-BUILD_ROOT = os.path.join(VERIF, ".build")
+BUILD_ROOT = os.environ.get("VERIF_BUILD_ROOT", os.path.join(VERIF, ".build"))
 WHEEL = "/venv/lib/python3.12/site-packages"
 PY = "/venv/bin/python"
 CMODS = {"base": ["base.c", "dense.c", "sparse.c"], "blas": ["blas.c"],
